@@ -72,10 +72,24 @@ func body(c *mc.Ctx) {
 	var retained []handle
 	nextID := uint64(1)
 	// background work may be held back from the start (does not count towards the depth)
-	held := c.Choose(2) == 1
+	// ... or the history starts from a database that already holds two flushed (and, depending on
+	// the options, compacted) entries: histories from a non-initial state
+	start := c.Choose(3)
+	held := start == 1
 	if held {
 		c.Op("hold")
 		root.Hold(true)
+	}
+	if start == 2 {
+		c.Op("[warm-up: Put(a) Put(b), quiescent]")
+		for i, k := range []string{"a", "b"} {
+			v := fmt.Sprintf("w%d", i)
+			db.Put([]byte(k), []byte(v))
+			ref[k] = v
+		}
+		if err := db.WaitOnTasks(); err != nil {
+			c.Failf("background task failed: %v", err)
+		}
 	}
 	restores := 0
 	later := false // something happened after the oldest retained handle was returned
